@@ -1250,7 +1250,7 @@ def malformed_lines():
 def generate(rng: random.Random, tier: str):
     A.system()
     quick = tier == "quick"
-    n_calc, n_trace, n_seq, n_yaml_files, n_odd, n_sys = (450, 150, 90, 110, 60, 8) if quick else (6000, 1800, 800, 1400, 500, 50)
+    n_calc, n_trace, n_seq, n_yaml_files, n_odd, n_sys = (450, 150, 90, 110, 60, 8) if quick else (4500, 1400, 500, 1000, 400, 40)
     out = []
     for k in range(n_calc):
         doc = gen_doc(rng)
@@ -1422,5 +1422,8 @@ PROP = Prop(
     partial_theorems=["C20_listings_partial: parameter value history and formula start dates / end as served = those of the "
                       "Parameter / Variable objects, and a reader of the listing recovers the value / formula the engine uses on every "
                       "day; scales, descriptions, metadata, source links and the /spec document are left to the correspondence"],
-    exhaustive_note="every tier runs the complete grid value type (7) x layout (3) x relation to the margin (4) x margin kind (4)",
+    exhaustive_note=("the finite grid value type (7: int, float, bool, str, str with max_length, date, Enum) x layout (3, the same "
+                     "expectations in each) x relation to the margin (equal, within, at, just beyond) x margin kind (none, absolute, "
+                     "relative, both) is enumerated completely: once in every tier on a population drawn from the run's seed, and "
+                     "in the thorough tier on three further fixed populations"),
 )
